@@ -220,6 +220,8 @@ func (s *Set) MarshalJSON() ([]byte, error) {
 	for _, member := range s.GetAll() {
 		members = append(members, internal.BytesString(member))
 	}
+	// Sorted, so that equal sets have equal encodings (snapshots are compared by their hash).
+	slices.Sort(members)
 	return json.Marshal(members)
 }
 
